@@ -30,7 +30,8 @@ def main():
     if a.only:
         tasks = [t for t in tasks if a.only in t["family"] or a.only in json.dumps(t["params"])]
     for t in tasks:
-        t.setdefault("time_budget", 240 if a.tier == "quick" else 1500)
+        # a safety net against runaway families, generous enough for a heavily loaded machine
+        t.setdefault("time_budget", 1800 if a.tier == "quick" else 4 * 3600)
     rc = run_check(a.prop, tasks, a.tier, seed, "", ASSUMPTIONS + getattr(mod, "EXTRA_ASSUMPTIONS", []), mod.BOUNDS, t0)
     sys.exit(rc)
 
